@@ -80,6 +80,7 @@ func (g *Grouping) text() string {
 type RangeAgg struct {
 	Op       string
 	Sel      []Matcher
+	Stages   []Stage // pipeline between the selector and unwrap
 	Unwrap   string // label ("" = no unwrap)
 	Conv     string // "", bytes, duration, duration_seconds
 	RangeNS  int64
@@ -112,6 +113,9 @@ func (e *RangeAgg) Text() string {
 		sb.WriteString(strconv.FormatFloat(*e.Param, 'f', -1, 64) + ", ")
 	}
 	sb.WriteString(SelText(e.Sel))
+	for _, st := range e.Stages {
+		sb.WriteString(" " + st.Text())
+	}
 	if e.Unwrap != "" {
 		if e.Conv != "" {
 			sb.WriteString(" | unwrap " + e.Conv + "(" + e.Unwrap + ")")
@@ -155,10 +159,16 @@ func (e *VecAgg) Text() string {
 type Bin struct {
 	Op   string
 	L, R Expr
+	// Bool: the comparison carries the `bool` modifier. Which of the two conventions (false = 0, false = dropped)
+	// the modifier selects is not stated by the property: the model evaluates it like the plain form, under cv.
+	Bool bool
 }
 
 // Text implements Expr (fully parenthesised operands unless atoms).
 func (e *Bin) Text() string {
+	if e.Bool {
+		return wrap(e.L) + " " + e.Op + " bool " + wrap(e.R)
+	}
 	return wrap(e.L) + " " + e.Op + " " + wrap(e.R)
 }
 
@@ -335,10 +345,26 @@ func evalRange(e *RangeAgg, data []mockq.Rec, t int64) Value {
 	}
 	var order []string
 	series := map[string]*ser{}
+	qs := &QueryState{}
 	for _, r := range window(data, from, to) {
 		labels := Labels(mockq.InitialLabels(r))
 		if !matchSel(labels, e.Sel) {
 			continue
+		}
+		if len(e.Stages) > 0 {
+			ent := &Entry{TS: r.TS, Line: r.Line, Labels: labels}
+			keep := true
+			for i, st := range e.Stages {
+				qs.Pos = i
+				if !st.Apply(ent, qs) {
+					keep = false
+					break
+				}
+			}
+			if !keep {
+				continue
+			}
+			labels = ent.Labels
 		}
 		var v float64
 		switch e.Op {
